@@ -668,7 +668,7 @@ func reachFromWithoutMarkerAvoiding(start *ssa.BasicBlock, target ssa.Instructio
 			if in == target {
 				return true
 			}
-			if marker(in) || callEstablishes(in, g) {
+			if marker(in) || callPasses(in, marker, g) {
 				blocked = true
 				break
 			}
